@@ -22,6 +22,9 @@ VTYPES = {
     "obj": ("cv::Obj", 8, 8, False),
     "obj4": ("cv::Obj4", 4, 4, False),
     "objtd": ("cv::ObjTD", 8, 8, False),
+    "objtm": ("cv::ObjTM", 8, 8, False),   # trivially copyable by copy operations, opaque move operations (C11 only)
+    "src": ("cv::Src", 4, 4, True),
+    "dst": ("cv::Dst", 4, 4, True),
 }
 
 
